@@ -1,3 +1,5 @@
+import string
+
 from flow.record import open_path_or_stream
 from flow.record.adapter import AbstractWriter
 from flow.record.utils import is_stdout
@@ -21,6 +23,20 @@ class DefaultMissing(dict):
         return key.join("{}")
 
 
+class RecordFormatter(string.Formatter):
+    """Applies a format template to the fields of a record; a field whose value does not support the format spec of the
+    template (an unset field is None: ``{name:>8}``, ``{data:hex}``) is formatted as its text instead of raising."""
+
+    def format_field(self, value, format_spec):
+        try:
+            return format(value, format_spec)
+        except (TypeError, ValueError):
+            try:
+                return format(str(value), format_spec)
+            except (TypeError, ValueError):
+                return str(value)
+
+
 class TextWriter(AbstractWriter):
     """Records are printed as textual representation with repr() or using `format_spec`."""
 
@@ -38,7 +54,7 @@ class TextWriter(AbstractWriter):
 
     def write(self, rec):
         if self.format_spec:
-            buf = self.format_spec.format_map(DefaultMissing(rec._asdict()))
+            buf = RecordFormatter().vformat(self.format_spec, (), DefaultMissing(rec._asdict()))
         else:
             buf = repr(rec)
         self.fp.write(buf.encode(errors="surrogateescape") + b"\n")
